@@ -1,6 +1,7 @@
 """IntEval family (bgv.Evaluator): serves C05 (values/metadata/errors) and C09 (frame condition,
 aliasing and history independence on the same generated programs)."""
 import json, os
+from concurrent.futures import ThreadPoolExecutor
 from vlib import *
 
 TRACE_CFG = ['SPECIFICATION TraceSpec', 'CONSTRAINT Progress', 'POSTCONDITION TraceAccepted', 'CHECK_DEADLOCK FALSE']
@@ -35,6 +36,30 @@ def pools(T, small=False):
                 ScalarPool=fs(*[dict(cls=a, d=b, ty=c) for (a, b, c) in scal]))
 
 
+def presets(T, L):
+    """Register files reached through real calls, from which every single call is enumerated."""
+    h = (T - 1) // 2
+    v1, v2, v3 = [1, T - 1, h, h + 1], [2, 3, 5, 7], [T - 1, 2, 0, 1]
+    out = {}
+    for mode in ("bgv", "bfv"):
+        for rlk in ("full", "nil"):
+            if rlk == "nil" and mode == "bgv":
+                tag = "bgv-nokeys"
+            else:
+                tag = mode + "-" + rlk
+            # X: three degree-1 registers with different scales/levels and one degree-2 product
+            out["X-" + tag] = [dict(op="Reset", mode=mode, rlk=rlk),
+                               dict(op="Load", o=1, v=v1, s=1, lvl=L), dict(op="Load", o=2, v=v2, s=55 % T, lvl=L),
+                               dict(op="Load", o=3, v=v3, s=1, lvl=L - 1),
+                               dict(op="Mul", a=1, b=dict(k="ct", r=2), o=4, new=True)]
+        # Y: two degree-2 registers with different scales (stale third components)
+        out["Y-" + mode] = [dict(op="Reset", mode=mode, rlk="full"),
+                            dict(op="Load", o=1, v=v1, s=1, lvl=L), dict(op="Load", o=2, v=v2, s=55 % T, lvl=L - 1),
+                            dict(op="Mul", a=1, b=dict(k="ct", r=1), o=3, new=True),
+                            dict(op="Mul", a=1, b=dict(k="ct", r=2), o=4, new=True)]
+    return out
+
+
 def describe(e):
     b = e.get('b') or {}
     return "%s(a=%s, b=%s, out=%s%s) mode/keys per Reset; err=%s panic=%s res=%s %s" % (
@@ -56,32 +81,74 @@ def signature(prog_steps, e):
     return "bgv:%s:%s:%s%s" % (e['op'], b.get('k', '-'), '+'.join(alias) or 'noalias', ':panic' if e.get('panic') else '')
 
 
-def exec_and_validate(ctx, d, pset, base, progs, tag, frame):
+def fork_programs(progs, plen):
+    """Programs sharing a prefix of plen steps become one program: prefix, Save, (tail, Restore)*."""
+    groups = {}
+    for p in progs:
+        st = json.loads(p)
+        groups.setdefault(json.dumps(st[:plen]), []).append(st[plen:])
+    out, index = [], []
+    for pre, tails in groups.items():
+        pre = json.loads(pre)
+        for i in range(0, len(tails), 400):
+            steps, idx = list(pre) + [dict(op="Save")], {}
+            for j, t in enumerate(tails[i:i + 400]):
+                steps += t + [dict(op="Restore")]
+                idx[j + 1] = pre + t
+            out.append(json.dumps(steps))
+            index.append(idx)
+    return out, index
+
+
+def exec_and_validate(ctx, d, pset, base, progs, tag, frame, plen=None):
     """Run programs on the real evaluator, validate the recorded trace with TLC, reproduce rejections."""
-    pf = os.path.join(d, 'progs-%s.ndjson' % tag)
-    with open(pf, 'w') as f:
-        f.write("\n".join(progs) + "\n")
-    tf = os.path.join(d, 'trace-%s.ndjson' % tag)
-    _, res, _ = vrun(['c05', 'exec', '--pset', pset, '--progs', pf, '--trace', tf, '--seed', ctx.seed])
-    lines = open(tf).read().splitlines()
+    nprogs = len(progs)
+    index = None
+    if plen:
+        progs, index = fork_programs(progs, plen)
+    nproc = max(1, min(NCPU // 2, len(progs)))
+    lines = []
+
+    def run_part(i):
+        part = progs[i::nproc]
+        pf = os.path.join(d, 'progs-%s-%d.ndjson' % (tag, i))
+        with open(pf, 'w') as f:
+            f.write("\n".join(part) + "\n")
+        tf = os.path.join(d, 'trace-%s-%d.ndjson' % (tag, i))
+        vrun(['c05', 'exec', '--pset', pset, '--progs', pf, '--trace', tf, '--seed', ctx.seed + i])
+        evs = [json.loads(x) for x in open(tf).read().splitlines()]
+        for e in evs:       # program ids are global
+            e['prog'] = (e['prog'] - 1) * nproc + i + 1
+        return evs
+
+    with ThreadPoolExecutor(max_workers=nproc) as ex:
+        for evs in ex.map(run_part, range(nproc)):
+            lines += evs
     consts = dict(base, CheckFrame=frame, CheckNoise=False)
     rej, stats = validate_programs(d, 'MC_IntEvalTrace', 'IntEvalTrace', consts, TRACE_CFG, lines)
-    ctx.add_trace_stats(stats, len(progs) - len(rej))
-    ctx.cov["programs"] += len(progs)
-    for r in rej:
-        prog = json.loads(progs[r['prog'] - 1])
+    ctx.add_trace_stats(stats, nprogs - len(rej))
+    ctx.cov["programs"] += nprogs
+    for r in rej[:12]:
         e = r['event']
+        if index is not None:
+            if r['fork'] == 0:     # the preset prefix itself is rejected
+                prog = index[r['prog'] - 1][1][:e['idx']]
+            else:
+                prog = index[r['prog'] - 1][r['fork']]
+            stepno = len(prog)
+        else:
+            prog = json.loads(progs[r['prog'] - 1])
+            stepno = e['idx']
         # reproduce: the program alone, fresh process, must be rejected again at the same step
         d2 = scratch('c05-repro')
-        stage_specs(d2)
         with open(os.path.join(d2, 'p.ndjson'), 'w') as f:
             f.write(json.dumps(prog) + "\n")
         vrun(['c05', 'exec', '--pset', pset, '--progs', os.path.join(d2, 'p.ndjson'), '--trace', os.path.join(d2, 't.ndjson'), '--seed', ctx.seed + 1000])
         l2 = open(os.path.join(d2, 't.ndjson')).read().splitlines()
-        rej2, _ = validate_programs(d2, 'MC_IntEvalTrace', 'IntEvalTrace', consts, TRACE_CFG, l2)
-        if not rej2 or rej2[0]['event']['idx'] != e['idx']:
-            raise Inconclusive("rejection of program %d step %d not reproduced in isolation" % (r['prog'], e['idx']))
-        ctx.violation(describe(e), dict(family='inteval', pset=pset, frame=frame, program=prog, step=e['idx'], event=e),
+        rej2, _ = validate_programs(d2, 'MC_IntEvalTrace', 'IntEvalTrace', consts, TRACE_CFG, l2, chunks=1)
+        if not rej2 or rej2[0]['event']['idx'] != stepno:
+            raise Inconclusive("rejection of program %d step %d not reproduced in isolation" % (r['prog'], stepno))
+        ctx.violation(describe(e), dict(family='inteval', pset=pset, frame=frame, program=prog, step=stepno, event=e),
                       sig=signature(prog, e))
     return len(rej)
 
@@ -101,21 +168,22 @@ def run_inteval(ctx, frame):
         T = c['T']
         d = scratch('c05-%s' % pset)
         stage_specs(d)
-        # (M) exhaustive model check of the specification on a small instance + (G) all its programs
+        # (M) exhaustive model check of the specification from preset register files + (G) all these programs
         if pi == 0 or not ctx.quick:
-            small = dict(base, NR=2, Randomize=False, Depth=2 + (1 if ctx.quick else 2), SimLen=0, OpPool=set(ALL_OPS),
-                         Modes=set(["bgv", "bfv"]), RlkKinds=set(["full", "nil"]), FreeFrom=c['L'] - 1, **pools(T, small=True))
-            write_mc(d, 'MC_IntEvalGen', 'IntEvalGen', small,
-                     ['SPECIFICATION GenSpec', 'INVARIANT Emit', 'INVARIANT TypeOK', 'INVARIANT DecodeExact', 'INVARIANT InBudget'])
-            r = tlc(d, 'MC_IntEvalGen', timeout=1500)
-            ctx.add_mc(r, 'IntEvalGen exhaustive pset=%s' % pset)
-            progs = progs_from(r)
-            log("[c05] exhaustive: %d states, %d programs" % (r.distinct, len(progs)))
-            if progs:
-                ctx.sample(dict(kind="exhaustive program", pset=pset, program=json.loads(progs[len(progs) // 2])))
-                exec_and_validate(ctx, d, pset, base, progs, 'exh', frame)
+            for pname, prefix in presets(T, c['L']).items():
+                small = dict(base, NR=4, Randomize=False, Depth=len(prefix) + 1, SimLen=0, OpPool=set(ALL_OPS),
+                             Modes=set(["bgv"]), RlkKinds=set(["full"]), FreeFrom=0, Prefix=prefix, **pools(T, small=True))
+                write_mc(d, 'MC_IntEvalGen', 'IntEvalGen', small,
+                         ['SPECIFICATION GenSpec', 'INVARIANT Emit', 'INVARIANT TypeOK', 'INVARIANT DecodeExact', 'INVARIANT InBudget'])
+                r = tlc(d, 'MC_IntEvalGen', timeout=1500)
+                ctx.add_mc(r, 'IntEvalGen exhaustive pset=%s preset=%s' % (pset, pname))
+                progs = progs_from(r)
+                log("[c05] exhaustive %s/%s: %d states, %d programs" % (pset, pname, r.distinct, len(progs)))
+                if progs:
+                    ctx.sample(dict(kind="exhaustive program", pset=pset, preset=pname, program=json.loads(progs[len(progs) // 2])))
+                    exec_and_validate(ctx, d, pset, base, progs, 'exh-' + pname, frame, plen=len(prefix))
         # (G) simulated longer programs
-        gen = dict(base, Randomize=True, Depth=14, SimLen=30, OpPool=set(ALL_OPS), Modes=set(["bgv", "bfv"]),
+        gen = dict(base, Randomize=True, Depth=14, SimLen=30, Prefix=[], OpPool=set(ALL_OPS), Modes=set(["bgv", "bfv"]),
                    RlkKinds=set(["full", "fulll", "empty", "nil"]), FreeFrom=0, **pools(T))
         gen['RlkKinds'] = set(["full", "empty", "nil"])
         write_mc(d, 'MC_IntEvalSim', 'IntEvalGen', gen, ['SPECIFICATION GenSpec', 'INVARIANT Emit', 'INVARIANT TypeOK', 'INVARIANT DecodeExact'])
